@@ -187,23 +187,27 @@ def blk (data : List UInt32) (j i : UInt32) (s : RS) : RS × UInt32 :=
 theorem blk_T (data : List UInt32) (j i : UInt32) (s : RS) : (blk data j i s).1.T = s.T := by
   unfold blk; split <;> rfl
 
+theorem blk_state (data : List UInt32) (j i : UInt32) (s : RS) : (blk data j i s).1.state = s.state := by
+  unfold blk; split <;> rfl
+
 theorem R_step (kk data : List UInt32) (j : UInt32) (i : Nat) (hi : i < 16)
-    (t0 t1 t2 t3 t4 t5 t6 t7 : UInt32) (W : List UInt32) (ok : Bool)
+    (t0 t1 t2 t3 t4 t5 t6 t7 : UInt32) (W S : List UInt32) (ok : Bool)
     (hk : (UInt32.ofNat i + j).toNat < kk.length) :
-    (R kk data j (UInt32.ofNat i) ⟨[t0, t1, t2, t3, t4, t5, t6, t7], W, ok⟩).W =
-      (blk data j (UInt32.ofNat i) ⟨[t0, t1, t2, t3, t4, t5, t6, t7], W, ok⟩).1.W ∧
-    (R kk data j (UInt32.ofNat i) ⟨[t0, t1, t2, t3, t4, t5, t6, t7], W, ok⟩).ok =
-      (blk data j (UInt32.ofNat i) ⟨[t0, t1, t2, t3, t4, t5, t6, t7], W, ok⟩).1.ok ∧
-    (R kk data j (UInt32.ofNat i) ⟨[t0, t1, t2, t3, t4, t5, t6, t7], W, ok⟩).T.length = 8 ∧
-    regsAt (R kk data j (UInt32.ofNat i) ⟨[t0, t1, t2, t3, t4, t5, t6, t7], W, ok⟩).T (i + 1) =
+    (R kk data j (UInt32.ofNat i) ⟨[t0, t1, t2, t3, t4, t5, t6, t7], W, S, ok⟩).W =
+      (blk data j (UInt32.ofNat i) ⟨[t0, t1, t2, t3, t4, t5, t6, t7], W, S, ok⟩).1.W ∧
+    (R kk data j (UInt32.ofNat i) ⟨[t0, t1, t2, t3, t4, t5, t6, t7], W, S, ok⟩).ok =
+      (blk data j (UInt32.ofNat i) ⟨[t0, t1, t2, t3, t4, t5, t6, t7], W, S, ok⟩).1.ok ∧
+    (R kk data j (UInt32.ofNat i) ⟨[t0, t1, t2, t3, t4, t5, t6, t7], W, S, ok⟩).T.length = 8 ∧
+    regsAt (R kk data j (UInt32.ofNat i) ⟨[t0, t1, t2, t3, t4, t5, t6, t7], W, S, ok⟩).T (i + 1) =
       Spec.round (regsAt [t0, t1, t2, t3, t4, t5, t6, t7] i) (kk.getD (UInt32.ofNat i + j).toNat 0)
-        (blk data j (UInt32.ofNat i) ⟨[t0, t1, t2, t3, t4, t5, t6, t7], W, ok⟩).2 := by
+        (blk data j (UInt32.ofNat i) ⟨[t0, t1, t2, t3, t4, t5, t6, t7], W, S, ok⟩).2 ∧
+    (R kk data j (UInt32.ofNat i) ⟨[t0, t1, t2, t3, t4, t5, t6, t7], W, S, ok⟩).state = S := by
   have hb : ∀ s : RS, (if j ≠ 0 then (blk2 (UInt32.ofNat i) s) else (blk0 data (UInt32.ofNat i) s)) =
       blk data j (UInt32.ofNat i) s := fun _ => rfl
-  simp only [R, hb, blk_T, inb_eq kk _ hk, idxT0 i hi, idxT1 i hi, idxT2 i hi, idxT3 i hi, idxT4 i hi, idxT5 i hi,
+  simp only [R, hb, blk_T, blk_state, inb_eq kk _ hk, idxT0 i hi, idxT1 i hi, idxT2 i hi, idxT3 i hi, idxT4 i hi, idxT5 i hi,
     idxT6 i hi, idxT7 i hi]
   generalize kk.getD (UInt32.ofNat i + j).toNat 0 = kt
-  generalize (blk data j (UInt32.ofNat i) ⟨[t0, t1, t2, t3, t4, t5, t6, t7], W, ok⟩) = bw
+  generalize (blk data j (UInt32.ofNat i) ⟨[t0, t1, t2, t3, t4, t5, t6, t7], W, S, ok⟩) = bw
   have : i = 0 ∨ i = 1 ∨ i = 2 ∨ i = 3 ∨ i = 4 ∨ i = 5 ∨ i = 6 ∨ i = 7 ∨ i = 8 ∨ i = 9 ∨ i = 10 ∨ i = 11 ∨
       i = 12 ∨ i = 13 ∨ i = 14 ∨ i = 15 := by omega
   rcases this with rfl | rfl | rfl | rfl | rfl | rfl | rfl | rfl | rfl | rfl | rfl | rfl | rfl | rfl | rfl | rfl <;>
@@ -286,65 +290,103 @@ theorem blk_spec (data : List UInt32) (hd : data.length = 16) (r0 : Spec.Regs) (
     · rw [getD_set_ne _ _ _ _ _ (by omega)]
       exact h.win u (by omega) (by omega)
 
+theorem R_state (kk data : List UInt32) (j i : UInt32) (s : RS) : (R kk data j i s).state = s.state := by
+  simp only [R]
+  split <;> rfl
+
 theorem R_inv (data : List UInt32) (hd : data.length = 16) (r0 : Spec.Regs) (j i : Nat) (hj : j % 16 = 0) (hj64 : j < 64)
     (hi : i < 16) (s : RS) (h : RInv data r0 j i s) :
     RInv data r0 j (i + 1) (R Sha256.K data (UInt32.ofNat j) (UInt32.ofNat i) s) := by
   obtain ⟨t0, t1, t2, t3, t4, t5, t6, t7, hT⟩ := list8 s.T h.hT
-  obtain ⟨T, W, ok⟩ := s
+  obtain ⟨T, W, S, ok⟩ := s
   simp only at hT
   subst hT
   obtain ⟨hv, hWl, hok, hwin⟩ := blk_spec data hd r0 j i hj hj64 hi _ h
   have hk : (UInt32.ofNat i + UInt32.ofNat j).toNat < Sha256.K.length := by
     rw [idxK j hj64 i hi, show Sha256.K.length = 64 from by decide]; omega
-  obtain ⟨h1, h2, h3, h4⟩ := R_step Sha256.K data (UInt32.ofNat j) i hi t0 t1 t2 t3 t4 t5 t6 t7 W ok hk
+  obtain ⟨h1, h2, h3, h4, _⟩ := R_step Sha256.K data (UInt32.ofNat j) i hi t0 t1 t2 t3 t4 t5 t6 t7 W S ok hk
   refine ⟨h3, by rw [h1]; exact hWl, by rw [h2]; exact hok, ?_, ?_⟩
   · rw [h4, hv, idxK j hj64 i hi, ← Nat.add_assoc, rounds_succ, ← h.regs, genK_eq, Nat.add_comm i j]
   · intro u hu1 hu2
     rw [h1]
     exact hwin u (by omega) (by omega)
 
+/-- the generated loop `for (i = 0; i < 16; i++) { R(i); }` -/
+theorem for3_unfold (data : List UInt32) (j i : Nat) (s : RS) :
+    Transform_for3 data j i s =
+      if i < 16 then Transform_for3 data j (i + 1) (R Sha256.K data (UInt32.ofNat j) (UInt32.ofNat i) s) else s := by
+  rw [Transform_for3]; rfl
+
 theorem innerLoop_inv (data : List UInt32) (hd : data.length = 16) (r0 : Spec.Regs) (j : Nat) (hj : j % 16 = 0) (hj64 : j < 64) :
-    ∀ (n i : Nat) (s : RS), 16 - i = n → i ≤ 16 → RInv data r0 j i s → RInv data r0 j 16 (innerLoop data j i s) := by
+    ∀ (n i : Nat) (s : RS), 16 - i = n → i ≤ 16 → RInv data r0 j i s →
+      RInv data r0 j 16 (Transform_for3 data j i s) ∧ (Transform_for3 data j i s).state = s.state := by
   intro n
   induction n with
   | zero =>
     intro i s hn hi h
     have : i = 16 := by omega
     subst this
-    rw [innerLoop]; simpa using h
+    rw [for3_unfold]; simpa using h
   | succ n ih =>
     intro i s hn hi h
     have hi' : i < 16 := by omega
-    rw [innerLoop]
+    rw [for3_unfold]
     simp only [hi', if_true]
-    exact ih (i + 1) _ (by omega) (by omega) (R_inv data hd r0 j i hj hj64 hi' s h)
+    have := ih (i + 1) _ (by omega) (by omega) (R_inv data hd r0 j i hj hj64 hi' s h)
+    exact ⟨this.1, by rw [this.2, R_state]⟩
 
 theorem RInv_next (data : List UInt32) (r0 : Spec.Regs) (j : Nat) (s : RS) (h : RInv data r0 j 16 s) :
     RInv data r0 (j + 16) 0 s :=
   ⟨h.hT, h.hW, h.ok, h.regs, h.win⟩
 
+/-- the generated loop `for (j = 0; j < 64; j += 16) { for (i …) … }` -/
 theorem outerLoop_eq (data : List UInt32) (s : RS) :
-    outerLoop data 0 s = innerLoop data 48 0 (innerLoop data 32 0 (innerLoop data 16 0 (innerLoop data 0 0 s))) := by
-  rw [outerLoop, if_pos (by omega), outerLoop, if_pos (by omega), outerLoop, if_pos (by omega), outerLoop,
-    if_pos (by omega), outerLoop, if_neg (by omega)]
+    Transform_for2 data 0 s =
+      Transform_for3 data 48 0 (Transform_for3 data 32 0 (Transform_for3 data 16 0 (Transform_for3 data 0 0 s))) := by
+  rw [Transform_for2, if_pos (by omega), Transform_for2, if_pos (by omega), Transform_for2, if_pos (by omega), Transform_for2,
+    if_pos (by omega), Transform_for2, if_neg (by omega)]
+  rfl
 
-theorem transformFrom_eq_compress (w0 st data : List UInt32) (hw : w0.length = 16) (hs : st.length = 8)
-    (hd : data.length = 16) : transformFrom w0 st data = (Spec.compress st data, true) := by
+/-- the generated copy loop `for (j = 0; j < 8; j++) T[j] = state[j];` -/
+theorem for1_eq (data : List UInt32) (a0 a1 a2 a3 a4 a5 a6 a7 h0 h1 h2 h3 h4 h5 h6 h7 : UInt32) (W : List UInt32) :
+    Transform_for1 data 0 ⟨[a0, a1, a2, a3, a4, a5, a6, a7], W, [h0, h1, h2, h3, h4, h5, h6, h7], true⟩ =
+      ⟨[h0, h1, h2, h3, h4, h5, h6, h7], W, [h0, h1, h2, h3, h4, h5, h6, h7], true⟩ := by
+  rw [Transform_for1, if_pos (by omega), Transform_for1, if_pos (by omega), Transform_for1, if_pos (by omega),
+    Transform_for1, if_pos (by omega), Transform_for1, if_pos (by omega), Transform_for1, if_pos (by omega),
+    Transform_for1, if_pos (by omega), Transform_for1, if_pos (by omega), Transform_for1, if_neg (by omega)]
+  simp [Transform_for1_body, wr, inb]
+
+/-- the generated loop `for (j = 0; j < 8; j++) state[j] += T[j];` -/
+theorem for4_eq (data : List UInt32) (u0 u1 u2 u3 u4 u5 u6 u7 h0 h1 h2 h3 h4 h5 h6 h7 : UInt32) (W : List UInt32) :
+    Transform_for4 data 0 ⟨[u0, u1, u2, u3, u4, u5, u6, u7], W, [h0, h1, h2, h3, h4, h5, h6, h7], true⟩ =
+      ⟨[u0, u1, u2, u3, u4, u5, u6, u7], W,
+       [h0 + u0, h1 + u1, h2 + u2, h3 + u3, h4 + u4, h5 + u5, h6 + u6, h7 + u7], true⟩ := by
+  rw [Transform_for4, if_pos (by omega), Transform_for4, if_pos (by omega), Transform_for4, if_pos (by omega),
+    Transform_for4, if_pos (by omega), Transform_for4, if_pos (by omega), Transform_for4, if_pos (by omega),
+    Transform_for4, if_pos (by omega), Transform_for4, if_pos (by omega), Transform_for4, if_neg (by omega)]
+  simp [Transform_for4_body, wr, inb]
+
+theorem transformFrom_eq_compress (t0 w0 st data : List UInt32) (ht : t0.length = 8) (hw : w0.length = 16) (hs : st.length = 8)
+    (hd : data.length = 16) : transformFrom t0 w0 st data = (Spec.compress st data, true) := by
   obtain ⟨h0, h1, h2, h3, h4, h5, h6, h7, rfl⟩ := list8 st hs
+  obtain ⟨a0, a1, a2, a3, a4, a5, a6, a7, rfl⟩ := list8 t0 ht
   let r0 : Spec.Regs := ⟨h0, h1, h2, h3, h4, h5, h6, h7⟩
-  have hok0 : ((List.range 8).all fun j => inb [h0, h1, h2, h3, h4, h5, h6, h7] j) = true := by
-    simp [inb, List.range, List.range.loop]
-  have hinit : RInv data r0 0 0 ⟨[h0, h1, h2, h3, h4, h5, h6, h7], w0, true⟩ :=
+  have hinit : RInv data r0 0 0 ⟨[h0, h1, h2, h3, h4, h5, h6, h7], w0, [h0, h1, h2, h3, h4, h5, h6, h7], true⟩ :=
     ⟨rfl, hw, rfl, rfl, by intro u hu; omega⟩
-  have a1 := RInv_next _ _ _ _ (innerLoop_inv data hd r0 0 (by omega) (by omega) 16 0 _ rfl (by omega) hinit)
-  have a2 := RInv_next _ _ _ _ (innerLoop_inv data hd r0 16 (by omega) (by omega) 16 0 _ rfl (by omega) a1)
-  have a3 := RInv_next _ _ _ _ (innerLoop_inv data hd r0 32 (by omega) (by omega) 16 0 _ rfl (by omega) a2)
-  have a4 := RInv_next _ _ _ _ (innerLoop_inv data hd r0 48 (by omega) (by omega) 16 0 _ rfl (by omega) a3)
-  have hT0 : ((List.range 8).map fun j => [h0, h1, h2, h3, h4, h5, h6, h7].getD j 0) = [h0, h1, h2, h3, h4, h5, h6, h7] := rfl
+  have b1 := innerLoop_inv data hd r0 0 (by omega) (by omega) 16 0 _ rfl (by omega) hinit
+  have a1 := RInv_next _ _ _ _ b1.1
+  have b2 := innerLoop_inv data hd r0 16 (by omega) (by omega) 16 0 _ rfl (by omega) a1
+  have a2 := RInv_next _ _ _ _ b2.1
+  have b3 := innerLoop_inv data hd r0 32 (by omega) (by omega) 16 0 _ rfl (by omega) a2
+  have a3 := RInv_next _ _ _ _ b3.1
+  have b4 := innerLoop_inv data hd r0 48 (by omega) (by omega) 16 0 _ rfl (by omega) a3
+  have a4 := RInv_next _ _ _ _ b4.1
+  have hS := b4.2
+  rw [b3.2, b2.2, b1.2] at hS
   unfold transformFrom
-  simp only [hT0, hok0, outerLoop_eq]
-  generalize innerLoop data 48 0 (innerLoop data 32 0 (innerLoop data 16 0 (innerLoop data 0 0
-    ⟨[h0, h1, h2, h3, h4, h5, h6, h7], w0, true⟩))) = sF at a4 ⊢
+  simp only [Sha256.Transform, for1_eq, outerLoop_eq]
+  generalize Transform_for3 data 48 0 (Transform_for3 data 32 0 (Transform_for3 data 16 0 (Transform_for3 data 0 0
+    ⟨[h0, h1, h2, h3, h4, h5, h6, h7], w0, [h0, h1, h2, h3, h4, h5, h6, h7], true⟩))) = sF at a4 hS ⊢
   have hr := a4.regs
   simp only [Nat.add_zero] at hr
   obtain ⟨u0, u1, u2, u3, u4, u5, u6, u7, hU⟩ := list8 sF.T a4.hT
@@ -352,11 +394,17 @@ theorem transformFrom_eq_compress (w0 st data : List UInt32) (hw : w0.length = 1
       let r := Spec.rounds (Spec.schedule data) 64 r0
       [r.a + h0, r.b + h1, r.c + h2, r.d + h3, r.e + h4, r.f + h5, r.g + h6, r.h + h7] := rfl
   rw [hc, show (0 + 16 + 16 + 16 + 16 : Nat) = 64 from rfl] at *
-  simp only [← hr, regsAt, a4.ok, hU]
-  simp [List.range, List.range.loop, UInt32.add_comm, inb]
+  obtain ⟨T, W, S, ok⟩ := sF
+  simp only at hU hS
+  subst hU hS
+  have hok : ok = true := a4.ok
+  subst hok
+  rw [for4_eq]
+  simp only [← hr, regsAt]
+  simp [UInt32.add_comm]
 
 theorem transform_eq_compress (st data : List UInt32) (hs : st.length = 8) (hd : data.length = 16) :
     transform st data = (Spec.compress st data, true) :=
-  transformFrom_eq_compress _ st data (by simp) hs hd
+  transformFrom_eq_compress _ _ st data (by simp) (by simp) hs hd
 
 end Nstd.Sha
